@@ -22,5 +22,6 @@ CONSTANTS
   GzIdx = {1, 3, 4}
   GzFrs = {"cl"}
   GzDrops = {0, 5}
+  GzKeeps = {1, 10, 11, 12, 20}
   GzRespFrs = {"cl", "ch", "close"}
 CHECK_DEADLOCK FALSE
